@@ -2,6 +2,7 @@ package checks
 
 import (
 	"fmt"
+	"strings"
 	"time"
 
 	"github.com/remieven/ysgo/verifx/internal/explore"
@@ -33,7 +34,7 @@ var stdHost = &yc.HostSpec{
 
 // walkProgram is the common leaf of the program-quantified checks: render canonically, skip
 // programs that cannot return, walk all paths in lock-step, report the first mismatch.
-func walkProgram(ctx *report.Ctx, c *explore.Chooser, partName string, p *yc.Program, hs *yc.HostSpec, wo yc.WalkOpts, lay *yc.Layout) {
+func walkProgram(ctx *report.Ctx, c *explore.Chooser, partName string, p *yc.Program, hs *yc.HostSpec, wo yc.WalkOpts, lay *yc.Layout, setting ...string) {
 	srcs := yc.Render(p, lay)
 	if _, div := yc.ModelPaths(p, hs, wo); div {
 		ctx.Skip("jump cycle that never yields (no implementation can return)")
@@ -60,9 +61,16 @@ func walkProgram(ctx *report.Ctx, c *explore.Chooser, partName string, p *yc.Pro
 		ctx.Sample(map[string]any{"part": partName, "script": script, "paths": st.Paths, "steps": st.Steps})
 	}
 	if mm != nil {
+		w := fmt.Sprintf("%s path=%s", script, intsString(mm.Path))
+		if len(setting) > 0 {
+			w += " setting=" + strings.Join(setting, ",")
+		}
+		if len(mm.Notes) > 0 {
+			w += " host=" + strings.Join(mm.Notes, ";")
+		}
 		ctx.Violation(report.Violation{
 			Clause:  mm.Clause,
-			Witness: fmt.Sprintf("%s path=%s", script, intsString(mm.Path)),
+			Witness: w,
 			Detail:  fmt.Sprintf("%s; Next arguments %s; observed trace %v", mm.Detail, intsString(mm.Args), mm.Trace),
 			Choices: c.Choices(), Part: partName,
 			Extra: map[string]any{"scripts": srcs, "path": mm.Path, "args": mm.Args, "trace": mm.Trace,
